@@ -109,7 +109,7 @@ def r1(idx, rep):
     # Between: concrete order table through _order/_compare
     bnames = aliases_of(idx, "Between")
     fo = idx.method("Between", "_order")
-    rep.analysed(fo, idx.method("Between", "_compare"), idx.method("Between", "_between"))
+    rep.analysed(fo, *K.opt(idx, "Between", "_compare"), *K.opt(idx, "Between", "_between"))
     for nm in bnames:
         bad = None
         for me, a, b in itertools.product([1, 2, 3, 4, 5], [2, 4], [2, 4]):
